@@ -86,4 +86,54 @@ Section QFTMat.
                           (fun q => b2n (nth q y false) * qphase n x (n - 1 - q))) by (intros; now rewrite Nat.sub_0_r).
     ring.
   Qed.
+  (* without swaps: the output is bit-reversed:  y |-> h^n e(X * Yrev) *)
+  Lemma qft_wf_noswap n : Forall (wf_gate n) (qft n false).
+  Proof.
+    apply Forall_forall. intros g Hg. destruct g as [q|c t k|a b]; simpl.
+    - now apply qft_H_iff in Hg.
+    - apply qft_CU1_iff in Hg. lia.
+    - apply qft_SWAP_iff in Hg. destruct Hg as [Hs _]. discriminate.
+  Qed.
+
+  Theorem qft_matrix_column_noswap (x : bits) :
+    let n := length x in
+    1 <= n -> e (2 ^ (n - 1)) = topp t1 ->
+    apply_gates T t0 t1 tadd tmul topp h e n (qft n false)
+                (col T (bvec T n (fun c => if beqb x c then t1 else t0)))
+    = col T (bvec T n (fun y => tmul (tpow T t1 tmul h n) (e (qphase n x 0 * rev_value n y)))).
+  Proof.
+    intros n Hn e_half.
+    destruct (qft_noswap_product x) as [f [R P]]. fold n in R, P.
+    assert (I : col T (bvec T n (fun c => if beqb x c then t1 else t0)) =
+                col T (pvec T t0 t1 tmul n (amps_of T t0 t1 tmul h e n (qinit x)))).
+    { f_equal. unfold pvec. apply (bvec_ext T). intros c Lc.
+      unfold amps_of, qinit.
+      rewrite <- (den_basis T t0 t1 tadd tmul tsub topp Tring x c) by (now rewrite Lc).
+      f_equal. unfold n.
+      rewrite <- (map_nth_seq (fun b : bool => if b then (t0, t1) else (t1, t0)) false x 0).
+      apply map_ext. intros q. rewrite Nat.sub_0_r. reflexivity. }
+    rewrite I.
+    rewrite (prun_sound T t0 t1 tadd tmul tsub topp Tring h e n e_0 e_add e_half (qft n false) (qinit x) f (qft_wf_noswap n) R).
+    f_equal. unfold pvec. apply (bvec_ext T). intros y Ly.
+    assert (A : amps_of T t0 t1 tmul h e n f =
+                map (fun p => (h, tmul h (e p))) (map (fun q => qphase n x q) (seq 0 n))).
+    { unfold amps_of. rewrite map_map. apply map_ext_in. intros q Hq. apply in_seq in Hq.
+      rewrite P by lia. reflexivity. }
+    rewrite A.
+    rewrite (den_phases T t0 t1 tadd tmul tsub topp Tring h e e_0 e_add) by (now rewrite !map_length, seq_length).
+    rewrite !map_length, seq_length. f_equal.
+    rewrite (combine_sum (fun q => qphase n x q) n y 0 Ly).
+    destruct (dft_phase_congruence_rev n x y) as [K E]. rewrite E.
+    assert (E1 : forall k, e (2 ^ n * k) = t1).
+    { assert (E2 : e (2 ^ n) = t1).
+      { replace (2 ^ n) with (2 ^ (n - 1) + 2 ^ (n - 1)).
+        - rewrite e_add, e_half. ring.
+        - replace n with (S (n - 1)) at 3 by lia. simpl. lia. }
+      induction k as [|k IHk]; [now rewrite Nat.mul_0_r|].
+      replace (2 ^ n * S k) with (2 ^ n + 2 ^ n * k) by lia. rewrite e_add, E2, IHk. ring. }
+    rewrite e_add, E1.
+    rewrite (list_sum_ext (fun q => b2n (nth (q - 0) y false) * qphase n x q)
+                          (fun q => b2n (nth q y false) * qphase n x q)) by (intros; now rewrite Nat.sub_0_r).
+    ring.
+  Qed.
 End QFTMat.
